@@ -300,11 +300,23 @@ def pack_any(spec: ValueSpec) -> Optional[Expression]:
         return spec.expression
 
 
+def _union_packer_call(spec: ValueSpec, method_name: str) -> Expression:
+    method_args = ", ".join(
+        filter(None, (spec.expression, spec.builder.get_pack_method_flags()))
+    )
+    if spec.builder.is_nailed:
+        return f"{spec.self_attrs_name}.{method_name}({method_args})"
+    else:
+        return f"{method_name}({method_args})"
+
+
 def pack_union(
     spec: ValueSpec, args: tuple[type, ...], prefix: str = "union"
 ) -> Expression:
-    if spec.type is spec.owner and spec.field_ctx.packer:
-        return spec.field_ctx.packer
+    if spec.type is spec.owner:
+        existing = spec.field_ctx.union_packers.get(id(spec.type))
+        if existing:
+            return _union_packer_call(spec, existing)
     lines = CodeLines()
 
     method_name = (
@@ -312,17 +324,7 @@ def pack_union(
         f"{random_hex()}"
     )
 
-    if not spec.field_ctx.packer:
-        method_args = ", ".join(
-            filter(None, ("value", spec.builder.get_pack_method_flags()))
-        )
-        if spec.builder.is_nailed:
-            union_packer = (
-                f"{spec.self_attrs_name}.{method_name}({method_args})"
-            )
-        else:
-            union_packer = f"{method_name}({method_args})"
-        spec.field_ctx.packer = union_packer
+    spec.field_ctx.union_packers[id(spec.type)] = method_name
 
     method_args = "self, value" if spec.builder.is_nailed else "value"
     default_kwargs = spec.builder.get_pack_method_default_flag_values()
